@@ -31,6 +31,9 @@ REPO = os.environ.get("GOTRANX_REPO", "/repo")  # the tree under test (default: 
 
 def _oracle_env():
     env = dict(os.environ, PYTHONDONTWRITEBYTECODE="1")
+    # sympy's simplifications are hash-seed dependent in places (listed findings): a fixed seed makes a run repeatable; the seed of the
+    # run selects it, so different seeds still explore different hash orders (C09's oracle sets its own seeds for its children)
+    env.setdefault("PYTHONHASHSEED", str(int(os.environ.get("VERIF_SEED", "0")) % 4294967295))
     if REPO != "/repo":
         env["PYTHONPATH"] = f"{REPO}/src" + (":" + env["PYTHONPATH"] if env.get("PYTHONPATH") else "")
     return env
